@@ -30,6 +30,15 @@
 (*                         (`expired && (running > min || recycle)` instead of  *)
 (*                         `expired && running > min || recycle`): stop() waits *)
 (*                         out its limit although all work is done (seeded/C11) *)
+(*  "drop_undoes_cancel"   dropping a task's join handle (clean_task_result)    *)
+(*                         before the task has finished removes its id from the *)
+(*                         cancel set: a task cancelled while queued runs anyway*)
+(*                         (code before 4c564b6; JoinHandle::try_cancel(self)   *)
+(*                         drops the handle right after the cancel)             *)
+(*  "abandoned_stays_running" a task whose handle was dropped stays registered  *)
+(*                         as running on its worker after it has finished: a    *)
+(*                         late cancel of it hits whatever that worker runs now *)
+(*                         (seeded/C13)                                         *)
 (* KeepAlive = TRUE models a positive keep-alive time: whether an idle worker's *)
 (* time has passed is then chosen freely at every look.                         *)
 EXTENDS Naturals, Integers, Sequences, FiniteSets, TLC, Json
@@ -49,10 +58,12 @@ Dev(d) == d \in Deviations
 
 VARIABLES pstate,      \* "Running" | "Stopping" | "Stopped"
           tq,          \* queued tasks, arrival order
-          tst,         \* [T -> "none" | "queued" | "running" | "done" | "skipped" | "orphaned" | "rejected"]
+          tst,         \* [T -> "none" | "queued" | "cqueued" | "running" | "crunning" | "done" | "skipped" | "orphaned" | "rejected"]
+                       \* ("cqueued" / "crunning": a cancel was requested while the task was queued / running)
           tw,          \* [T -> worker that runs it, 0]
           nsusp,       \* [T -> suspends so far]
-          tres,        \* [T -> "none" | "stored" | "taken" | "stop_err"]
+          tres,        \* [T -> "none" | "stored" | "taken" | "stop_err" | "nowait" | "dropped"]
+                       \* ("nowait": the join handle was dropped before the task ended; "dropped": ... and the task is over)
           cancelTasks, cancelCo, runningTasks,
           wst,         \* [W -> "none" | "ready" | "current" | "parked" | "done" | "dropped"]
           wtask,       \* [W -> task in progress, 0]
@@ -86,6 +97,9 @@ Log(e) == hist' = Append(hist, e) /\ nops' = nops + 1
 NoLog == UNCHANGED <<hist, nops>>
 BodyLog(step) == hist' = Append(hist, [a |-> "body", t |-> wtask[cur], step |-> step]) /\ UNCHANGED nops
 
+QueuedSt == {"queued", "cqueued"}
+RunningSt == {"running", "crunning"}
+Unfin == QueuedSt \cup RunningSt
 Alive == {w \in W : wst[w] \in {"ready", "current", "parked"}}
 StopActive == {"begin", "passes", "quietpass", "quietdone"}
 AllWorkDone == /\ \A t \in accepted : tst[t] \in {"done", "skipped", "orphaned"}
@@ -117,12 +131,24 @@ Submit(t) ==
 \* try_cancel_task, called while no pass is in progress (the signal path needs a pass on another
 \* thread and is modelled in Cancel.tla)
 Cancel(t) ==
-  /\ Api /\ spc = "idle" /\ tst[t] \in {"queued", "running"} /\ t \notin cancelTasks
+  \* (also a late cancel of a task that is over and whose handle was dropped)
+  /\ Api /\ spc = "idle" /\ (tst[t] \in {"queued", "running"} \/ (tst[t] = "done" /\ tres[t] = "dropped")) /\ t \notin cancelTasks
   /\ Log([a |-> "cancel", t |-> t])
   /\ IF t \in runningTasks
      THEN cancelCo' = cancelCo \cup {tw[t]} /\ UNCHANGED cancelTasks
      ELSE cancelTasks' = cancelTasks \cup {t} /\ UNCHANGED cancelCo
-  /\ UNCHANGED <<pstate, tq, tst, tw, nsusp, tres, runningTasks, wst, wtask, rq, ctr, spc, cur, stopping, waits, pending,
+  /\ tst' = [tst EXCEPT ![t] = IF @ = "queued" THEN "cqueued" ELSE IF @ = "running" THEN "crunning" ELSE @]
+  /\ UNCHANGED <<pstate, tq, tw, nsusp, tres, runningTasks, wst, wtask, rq, ctr, spc, cur, stopping, waits, pending,
+                 wpc, notified, accepted, viol>>
+
+\* the task's join handle is dropped before the task has ended (JoinHandle::drop -> clean_task_result):
+\* nobody will ask for the result
+Abandon(t) ==
+  /\ Api /\ spc = "idle" /\ t \notin Waiters /\ tst[t] \in Unfin /\ tres[t] = "none"
+  /\ Log([a |-> "abandon", t |-> t])
+  /\ tres' = [tres EXCEPT ![t] = "nowait"]
+  /\ cancelTasks' = IF Dev("drop_undoes_cancel") THEN cancelTasks \ {t} ELSE cancelTasks
+  /\ UNCHANGED <<pstate, tq, tst, tw, nsusp, cancelCo, runningTasks, wst, wtask, rq, ctr, spc, cur, stopping, waits, pending,
                  wpc, notified, accepted, viol>>
 
 StopBegin ==
@@ -137,7 +163,7 @@ StopEnd(timedout) ==
   /\ Go /\ spc = "idle" /\ stopping \in {"passes", "quietdone"}
   /\ IF timedout THEN ctr > 0 ELSE ctr = 0
   /\ LET ok == ~timedout \/ Dev("stop_timeout_ok")
-         unfinished == {t \in accepted : tst[t] \in {"queued", "running"}}
+         unfinished == {t \in accepted : tst[t] \in Unfin}
      IN /\ stopping' = IF ok THEN "done_ok" ELSE "done_err"
         /\ pstate' = IF ok THEN "Stopped" ELSE pstate
         \* do_clean: every registered waiter gets the "pool has stopped" error
@@ -203,7 +229,7 @@ WorkerPop ==
           THEN \* skipped: "Cancel task successfully"
                /\ tq' = Tail(tq) /\ cancelTasks' = cancelTasks \ {t} /\ tst' = [tst EXCEPT ![t] = "skipped"]
                /\ IF Dev("cancel_skip_unsettled") THEN UNCHANGED <<tres, waits, pending, notified>>
-                  ELSE /\ tres' = [tres EXCEPT ![t] = "stop_err"] /\ waits' = waits \ {t}
+                  ELSE /\ tres' = [tres EXCEPT ![t] = IF @ = "nowait" THEN "dropped" ELSE "stop_err"] /\ waits' = waits \ {t}
                        /\ pending' = [pending EXCEPT ![t] = FALSE] /\ notified' = [notified EXCEPT ![t] = TRUE]
                /\ UNCHANGED <<tw, runningTasks, wtask, wst, ctr, cur, spc, rq, stopping>>
           ELSE /\ tq' = Tail(tq) /\ tst' = [tst EXCEPT ![t] = "running"] /\ tw' = [tw EXCEPT ![t] = cur]
@@ -254,8 +280,9 @@ TimerFire(w) ==
 TaskFinish ==
   /\ Go /\ spc = "in" /\ wtask[cur] # 0 /\ BodyLog("finish")
   /\ LET t == wtask[cur] IN
-     /\ tst' = [tst EXCEPT ![t] = "done"] /\ runningTasks' = runningTasks \ {t}
-     /\ tres' = [tres EXCEPT ![t] = "stored"]
+     /\ tst' = [tst EXCEPT ![t] = "done"]
+     /\ runningTasks' = IF Dev("abandoned_stays_running") /\ tres[t] = "nowait" THEN runningTasks ELSE runningTasks \ {t}
+     /\ tres' = [tres EXCEPT ![t] = IF @ = "nowait" THEN "dropped" ELSE "stored"]
   /\ spc' = "notify"
   /\ UNCHANGED <<pstate, tq, tw, nsusp, cancelTasks, cancelCo, wst, wtask, rq, ctr, cur, stopping, waits, pending, wpc,
                  notified, accepted, viol>>
@@ -309,7 +336,7 @@ W3timeout(t) ==
   /\ Go /\ wpc[t] = "W3" /\ pending[t] /\ NoLog
   /\ spc = "idle" /\ stopping \notin StopActive
   /\ viol' = IF tres[t] \in {"stored", "stop_err"} /\ notified[t] THEN "lost_wakeup"
-             ELSE IF tst[t] \in {"skipped", "orphaned"} \/ (pstate = "Stopped" /\ tst[t] \in {"queued", "running"})
+             ELSE IF tst[t] \in {"skipped", "orphaned"} \/ (pstate = "Stopped" /\ tst[t] \in Unfin)
                   THEN "waiter_unsettled" ELSE viol
   /\ wpc' = [wpc EXCEPT ![t] = "timeout"]
   /\ UNCHANGED <<pstate, tq, tst, tw, nsusp, tres, cancelTasks, cancelCo, runningTasks, wst, wtask, rq, ctr, spc, cur,
@@ -319,7 +346,7 @@ W4(t) == /\ Go /\ wpc[t] = "W4" /\ NoLog /\ Take(t, "timeout")
                         stopping, waits, pending, notified, accepted, viol>>
 
 Next ==
-  \/ \E t \in T : Submit(t) \/ Cancel(t) \/ WaitStart(t) \/ W1(t) \/ W2(t) \/ W2b(t) \/ W3wake(t) \/ W3timeout(t) \/ W4(t)
+  \/ \E t \in T : Submit(t) \/ Cancel(t) \/ Abandon(t) \/ WaitStart(t) \/ W1(t) \/ W2(t) \/ W2b(t) \/ W3wake(t) \/ W3timeout(t) \/ W4(t)
   \/ StopBegin \/ StopEnd(TRUE) \/ StopEnd(FALSE)
   \/ PassBegin \/ PickWorker \/ WorkerPop \/ TaskSuspend \/ TaskDelay \/ TaskFinish \/ Notify
   \/ \E w \in W : TimerFire(w)
@@ -334,14 +361,16 @@ CounterBounded == ctr <= Max
 \* no workers left after a pass that ran out of work
 Settled == spc = "idle" /\ rq = <<>> /\ tq = <<>> /\ \A w \in W : wst[w] # "parked"
 \* (with a positive keep-alive time idle workers may linger until it has passed: then the clause is StopPrompt below)
-DrainsToMin == (~KeepAlive /\ Settled /\ \A t \in T : tst[t] \notin {"queued", "running"}) => ctr <= Min
+DrainsToMin == (~KeepAlive /\ Settled /\ \A t \in T : tst[t] \notin Unfin) => ctr <= Min
 \* C11: stopping a pool whose tasks have all finished or been cancelled returns promptly - viol = "stop_slow" in StopEnd
 \* C12: the lifecycle only moves forward
 Monotone == [][ (pstate = "Stopping" => pstate' # "Running") /\ (pstate = "Stopped" => pstate' = "Stopped") ]_vars
 \* C12: nothing is accepted once stopping has begun
 RejectAfterStop == \A t \in T : (tst[t] = "rejected") <=> (t \notin accepted /\ tst[t] # "none")
 \* C13: a task cancelled before it started never runs
-CancelledNeverRuns == [][\A t \in T : (t \in cancelTasks /\ tst[t] = "queued") => tst'[t] \in {"queued", "skipped"}]_vars
+CancelledNeverRuns == [][\A t \in T : tst[t] = "cqueued" => tst'[t] \in {"cqueued", "skipped"}]_vars
+\* C13: only a task whose own cancel was requested while it ran loses its worker
+NoCollateralDrop == [][\A t \in T : (tst'[t] = "orphaned" /\ tst[t] # "orphaned") => tst[t] = "crunning"]_vars
 \* C13 / C01: at quiescence every accepted task that was not cancelled has finished
 NoCollateral == (Settled /\ pstate = "Running" /\ cancelCo = {}) =>
                   \A t \in accepted : tst[t] \in {"done", "skipped", "orphaned"}
